@@ -148,9 +148,42 @@ func c15(c *Ctx) {
 	r.Floor("ERR", "validator/check call sites", ne, 10)
 
 	// ---- ACYCLIC
-	r.Rule("ACYCLIC: the store quotaInfoMap[name]=newInfo in ValidUpdateQuota is unreachable unless validateQuotaTopology returned nil; validateQuotaTopology returns nil for a non-root parent only after a callee containing an ancestor walk (a loop that repeatedly looks up quotaInfoMap by the ParentName of the previous lookup and can return an error from a comparison inside the loop) returned nil")
+	r.Rule("ACYCLIC: the store quotaInfoMap[name]=newInfo in ValidUpdateQuota is unreachable unless validateQuotaTopology returned nil; validateQuotaTopology returns nil for a non-root parent only after a callee containing an ancestor walk (a loop that repeatedly looks up quotaInfoMap by the ParentName of the previous lookup and can return an error from a comparison inside the loop) returned nil; inside that callee, for a non-root parent, no nil return is reachable without entering the walk loop")
 	if up := entries["ValidUpdateQuota"]; up != nil {
 		c15acyclic(c, up)
+	}
+
+	// ---- the root exemption of the min-sum check
+	r.Rule("PATH(root exemption): extension.IsTreeRootQuota (which exempts a quota from the children-min-sum check in checkMinQuotaValidate) can return true only when the quota carries the is-root label with value \"true\"")
+	if tf := c.Fn("apis/extension", "", "IsTreeRootQuota"); tf != nil {
+		f := an.Facts{}
+		for _, b := range tf.Blocks {
+			for _, in := range b.Instrs {
+				bo, ok := in.(*ssa.BinOp)
+				if !ok || (bo.Op != token.EQL && bo.Op != token.NEQ) {
+					continue
+				}
+				lk, isL := bo.X.(*ssa.Lookup)
+				str, isC := constString(bo.Y)
+				if isL && isC && str == "true" && strings.HasSuffix(an.Path(lk.X), ".Labels") {
+					if k, ok := constString(lk.Index); ok && strings.HasSuffix(k, "/is-root") {
+						if bo.Op == token.EQL {
+							f[bo] = an.False
+						} else {
+							f[bo] = an.True
+						}
+					}
+				}
+			}
+		}
+		reach := an.Explore(tf, nil, f, nil)
+		bad := false
+		for _, ret := range reach.Returns() {
+			if reach.EvalAt(ret.Results[0], ret) != an.False {
+				bad = true
+			}
+		}
+		r.Check(len(f) >= 1 && !bad, "PATH", fkey(tf)+"/only-labelled-roots", c.Pos(tf.Pos()), "true only for quotas labelled is-root=true", sprintf("IsTreeRootQuota can return true for a quota without the is-root label (%d label tests recognised): such a quota skips the check that its children's mins sum to at most its own min", len(f)))
 	}
 
 	// ---- every check on every path
@@ -235,9 +268,15 @@ func topoWrites(fn *ssa.Function) []an.Effect {
 // depends on the lookup's result (parent chain iteration), and an error return inside that loop
 // guarded by a comparison that depends on the phi.
 func hasAncestorWalk(fn *ssa.Function) (bool, string) {
+	cmp := ancestorWalkCmp(fn)
+	return cmp != nil, fn.Name()
+}
+
+// ancestorWalkCmp returns the cycle test of an ancestor walk in fn (nil when fn has none).
+func ancestorWalkCmp(fn *ssa.Function) *ssa.BinOp {
 	recv := an.Receiver(fn)
 	if recv == nil {
-		return false, ""
+		return nil
 	}
 	for _, b := range fn.Blocks {
 		for _, in := range b.Instrs {
@@ -305,13 +344,13 @@ func hasAncestorWalk(fn *ssa.Function) (bool, string) {
 						continue
 					}
 					if (bo.Op == token.EQL) == g.Truth && !an.IsNilConst(ret.Results[len(ret.Results)-1]) {
-						return true, fn.Name()
+						return bo
 					}
 				}
 			}
 		}
 	}
-	return false, ""
+	return nil
 }
 
 func dependsOnParam(v ssa.Value) bool {
@@ -414,6 +453,45 @@ func c15acyclic(c *Ctx, up *ssa.Function) {
 		r.Fail("ACYCLIC", key2, c.Pos(vfn.Pos()), "no validator reachable from validateQuotaTopology walks the ancestor chain of the new parent: a re-parent under one's own descendant (A under root, B under A, then A.parent:=B) is accepted and creates a cycle; the scheduler's getCurToAllParentGroupQuotaInfoNoLock then never terminates")
 		return
 	}
+	// inside the walker: for a non-root parent the cycle test is evaluated before any nil return
+	for _, w := range walkers {
+		wf := w.Common().StaticCallee()
+		cmp := ancestorWalkCmp(wf)
+		if cmp == nil {
+			continue // the walk sits deeper; covered by the callee's own obligations when anchored
+		}
+		f := an.Facts{}
+		for _, b := range wf.Blocks {
+			for _, in := range b.Instrs {
+				bo, ok := in.(*ssa.BinOp)
+				if !ok || (bo.Op != token.EQL && bo.Op != token.NEQ) {
+					continue
+				}
+				if strings.Contains(an.Path(bo.Y), "koordinator-root-quota") || strings.Contains(an.Path(bo.Y), "RootQuotaName") {
+					if _, isParam := bo.X.(*ssa.Parameter); isParam {
+						if bo.Op == token.NEQ {
+							f[bo] = an.True
+						} else {
+							f[bo] = an.False
+						}
+					}
+				}
+			}
+		}
+		hdr := an.InnermostLoopHeader(cmp.Block())
+		if hdr == nil {
+			hdr = cmp.Block()
+		}
+		rw := an.Explore(wf, nil, f, func(in ssa.Instruction) bool { return in.Block() == hdr })
+		var skip []string
+		for _, ret := range rw.Returns() {
+			if rw.EvalAt(ret.Results[0], ret) != an.NonNil {
+				skip = append(skip, c.InstrPos(ret))
+			}
+		}
+		r.Check(len(f) >= 1 && len(skip) == 0, "ACYCLIC", fkey(wf)+"/walk-not-skippable", c.InstrPos(cmp), "for a non-root parent the ancestor walk is entered before any nil return", sprintf("%s can return nil for a non-root parent (at %s) without having compared any ancestor with the quota: a shortcut (e.g. 'no children yet') lets a quota become its own parent", wf.Name(), strings.Join(skip, ",")))
+	}
+
 	// nil return of validateQuotaTopology for a non-root parent requires the walker to have succeeded
 	facts := an.Facts{}
 	for _, w := range walkers {
